@@ -516,8 +516,9 @@ func checkC12(c *Ctx) {
 	// type-dependent fast path): every decode path x operand patterns x lengths x SP/PC at the edges.
 	// No access-count watchdog is possible here; a wall-clock backstop of two minutes guards the check.
 	{
-		var cur string
-		done := c.WatchWall(func() string { return "Step on an unwrapped memory: " + cur })
+		var cur atomic.Value
+		cur.Store("")
+		done := c.WatchWall(func() string { return "Step on an unwrapped memory: " + cur.Load().(string) })
 		type rawMem struct {
 			name string
 			mk   func() z80.Memory
@@ -529,42 +530,52 @@ func checkC12(c *Ctx) {
 			raws = append(raws, rawMem{fmt.Sprintf("DumbMemory len %d", l), func() z80.Memory { return make(z80.DumbMemory, l) }, func(m z80.Memory, a uint16, b uint8) { m.Set(a, b) }})
 		}
 		raws = append(raws, rawMem{"MapMemory", func() z80.Memory { return z80.MapMemory{} }, func(m z80.Memory, a uint16, b uint8) { m.Set(a, b) }})
-		for _, rm := range raws {
-			mem := rm.mk()
-			for pi := range paths {
-				p := paths[pi]
-				if len(p.bytes) == 4 && p.bytes[2]%64 != 0 {
-					continue
-				}
-				for _, op := range operandPats {
-					full := append(append([]uint8{}, p.bytes...), op...)
-					for _, pc := range []uint16{0x0000, 0x00FC, 0x7FFC, 0xFFFD} {
-						for _, sp := range []uint16{0x0000, 0x0001, 0x0002, 0x0100, 0x8000, 0xFFFE, 0xFFFF} {
-							for i, b := range full {
-								rm.put(mem, pc+uint16(i), b)
-							}
-							cpu := z80.CPU{Memory: mem, IO: make(z80.DumbIO, 4)}
-							cpu.PC, cpu.SP = pc, sp
-							cpu.HL.SetU16(sp)
-							cpu.IX, cpu.IY = sp, 0xFFFF
-							cpu.BC.SetU16(0xFFFF)
-							cpu.DE.SetU16(0xFFFE)
-							cur = fmt.Sprintf("%s, bytes %s at PC=%04X, SP=HL=IX=%04X", rm.name, hexBytes(full), pc, sp)
-							var pan interface{}
-							func() {
-								defer func() { pan = recover() }()
-								cpu.Step()
-							}()
-							n++
-							if pan != nil {
-								c.Report("c12/rawmem:"+rm.name, n, "", map[string]string{"memory": rm.name, "bytes": hexBytes(full), "pc": fmt.Sprintf("%04X", pc), "sp": fmt.Sprintf("%04X", sp)}, []string{fmt.Sprintf("Step on %s (passed to the CPU directly), bytes %s at PC=%04X, SP=HL=IX=%04X, BC=IY=FFFF, DE=FFFE: %v", rm.name, hexBytes(full), pc, sp, pan)})
-								goto nextRaw
+		var rawN [16 * 8]int64
+		parallel(int64(len(raws)), 1, len(raws), func(wi int, lo, hi int64) {
+			for ri := lo; ri < hi; ri++ {
+				rm := raws[ri]
+				n := &rawN[wi*8]
+				mem := rm.mk()
+				for pi := range paths {
+					p := paths[pi]
+					if len(p.bytes) == 4 && p.bytes[2]%64 != 0 {
+						continue
+					}
+					for _, op := range operandPats {
+						full := append(append([]uint8{}, p.bytes...), op...)
+						for _, pc := range []uint16{0x0000, 0x00FC, 0x7FFC, 0xFFFD} {
+							for _, sp := range []uint16{0x0000, 0x0001, 0x0002, 0x0100, 0x8000, 0xFFFE, 0xFFFF} {
+								for i, b := range full {
+									rm.put(mem, pc+uint16(i), b)
+								}
+								cpu := z80.CPU{Memory: mem, IO: make(z80.DumbIO, 4)}
+								cpu.PC, cpu.SP = pc, sp
+								cpu.HL.SetU16(sp)
+								cpu.IX, cpu.IY = sp, 0xFFFF
+								cpu.BC.SetU16(0xFFFF)
+								cpu.DE.SetU16(0xFFFE)
+								if wi == 0 {
+									cur.Store(fmt.Sprintf("%s, bytes %s at PC=%04X, SP=HL=IX=%04X", rm.name, hexBytes(full), pc, sp))
+								}
+								var pan interface{}
+								func() {
+									defer func() { pan = recover() }()
+									cpu.Step()
+								}()
+								*n++
+								if pan != nil {
+									c.Report("c12/rawmem:"+rm.name, *n, "", map[string]string{"memory": rm.name, "bytes": hexBytes(full), "pc": fmt.Sprintf("%04X", pc), "sp": fmt.Sprintf("%04X", sp)}, []string{fmt.Sprintf("Step on %s (passed to the CPU directly), bytes %s at PC=%04X, SP=HL=IX=%04X, BC=IY=FFFF, DE=FFFE: %v", rm.name, hexBytes(full), pc, sp, pan)})
+									goto nextRaw
+								}
 							}
 						}
 					}
 				}
+			nextRaw:
 			}
-		nextRaw:
+		}, nil)
+		for i := range rawN {
+			n += rawN[i]
 		}
 		done()
 	}
